@@ -60,7 +60,23 @@ _THEOREMS = [
     "Zrnt.Proofs.C12.contrib_accept_iff_all_conditions",
     "Zrnt.Proofs.C12.contrib_violated_never_accept",
     "Zrnt.Proofs.C12.contrib_timing_failures_ignore",
-    "Zrnt.Proofs.C12.aslash_marks_only_on_accept_partial",
+    "Zrnt.Proofs.C12.sortedStrict_eq_spec",
+    "Zrnt.Proofs.C12.indicesSetOk_eq",
+    "Zrnt.Proofs.C12.isSlashableData_eq_spec",
+    "Zrnt.Proofs.C12.sorted_last_bound",
+    "Zrnt.Proofs.C12.aslashAny_eq",
+    "Zrnt.Proofs.C12.valSlashable_some",
+    "Zrnt.Proofs.C12.valSlashable_none",
+    "Zrnt.Proofs.C12.filterSlashable_some",
+    "Zrnt.Proofs.C12.filterSlashable_none",
+    "Zrnt.Proofs.C12.indexedOk_eq",
+    "Zrnt.Proofs.C12.mem_intersect",
+    "Zrnt.Proofs.C12.aslash_accept_char",
+    "Zrnt.Proofs.C12.shape_split",
+    "Zrnt.Proofs.C12.aslash_accept_iff_all_conditions",
+    "Zrnt.Proofs.C12.aslash_violated_never_accept",
+    "Zrnt.Proofs.C12.aslash_timing_failures_ignore",
+    "Zrnt.Proofs.C12.aslash_marks_only_on_accept",
 ]
 
 
